@@ -14,8 +14,6 @@ import (
 )
 
 func init() {
-	extend("C02", ruleEmptinessCheckUnlimited("C02.emptiness-check-unlimited"))
-	extend("C12", ruleEmptinessCheckUnlimited("C12.emptiness-check-unlimited"))
 	extend("C05", ruleAppendSeeksToEnd("C05.append-seeks-to-end"), ruleNoUnflushedBuffer("C05.no-unflushed-buffer"))
 	extend("C03", ruleNoUnflushedBuffer("C03.no-unflushed-buffer"))
 	extend("C14", ruleReadStreamClosedBeforeLoad("C14.read-stream-closed-before-load"))
